@@ -34,7 +34,8 @@ def make_prog(rnd, marker, nops):
             ops.append(("read", rnd.choice(STRS), rnd.sample(FIELDS, rnd.choice((1, 3, 6)))))
         elif r < 0.7:
             ops.append(("derive", rnd.choice(STRS), rnd.choice(["div", "with_query", "with_host", "with_port", "with_path", "join", "origin",
-                                                              "with_user", "parent", "with_fragment", "with_query_bigint", "with_query_floats"])))
+                                                              "with_user", "parent", "with_fragment", "with_query_bigint", "with_query_floats", "update_query",
+                                                              "extend_query", "without_query_params", "mod", "relative", "with_name", "joinpath"])))
         elif r < 0.85:
             # a component that needs quoting and whose quoted form is above / below 8 KiB, tagged with the thread's marker
             n = rnd.choice((50, 1400, 2800, 4200, 9000))
@@ -68,6 +69,10 @@ def run_op(yarl, op, facts):
              "with_fragment": lambda: u.with_fragment("frag ment"),
              # values whose rendering goes through interpreter-wide limits: an int beyond the str() digit limit (a ValueError, the same
              # in every thread), floats incl. both zeros
+             "update_query": lambda: u.update_query({"a": "9", "new": "é"}), "extend_query": lambda: u.extend_query([("z", "1 2")]),
+             "without_query_params": lambda: u.without_query_params("a", "q"), "mod": lambda: u % {"m": "1"},
+             "relative": lambda: u.relative() if u.absolute else u, "with_name": lambda: u.with_name("n m.txt") if u.raw_name else u,
+             "joinpath": lambda: u.joinpath("x/", "y z"),
              "with_query_bigint": lambda: u.with_query(n=10 ** DIGITS), "with_query_floats": lambda: u.with_query(a=-0.0, b=0.0, c=1e16)}[op[2]]
         res, r = outcome_of(f)
         facts.append({"k": "call:" + J([op[2], op[1]]), "v": J(canon_result(res, yarl))})
@@ -198,7 +203,10 @@ class Sched:
             t.join()
 
 
-DERIVES = ["div", "with_query", "with_host", "with_port", "with_path", "join", "origin", "with_user", "parent", "with_fragment"]
+DERIVES = ["div", "with_query", "with_host", "with_port", "with_path", "join", "origin", "with_user", "parent", "with_fragment",
+           "update_query", "extend_query", "joinpath"]
+# operations that may keep module-level scratch state between two calls: run concurrently on two DIFFERENT receivers
+TWO_BASE = ["join", "update_query", "with_path", "div", "joinpath", "with_query", "mod"]
 READ_GROUPS = [["raw_host", "port", "str"], ["host_port_subcomponent", "authority", "parts", "name"], ["query", "query_string", "human_repr"]]
 
 
@@ -217,6 +225,8 @@ def systematic_pairs(yarl, be, root, seed, n_pairs, outdir, stride):
     for d in DERIVES[:5]:
         templates.append((("derive", d), ("derive", d)))
     templates.append((("ctor",), ("ctor",)))
+    for d in TWO_BASE:
+        templates.append((("derive", d), ("derive_other", d)))
     for d in ("with_query_bigint", "with_query_floats"):
         templates.append((("derive", d), ("ambient",)))
         templates.append((("derive", d), ("hugeport",)))
@@ -232,6 +242,9 @@ def systematic_pairs(yarl, be, root, seed, n_pairs, outdir, stride):
                 return [("derive", s_, op[1])]
             if op[0] == "read":
                 return [("read", s_, op[1])]
+            if op[0] == "derive_other":     # the same operation on ANOTHER receiver (and the first one again afterwards)
+                other = STRS[(STRS.index(base) + 2) % len(STRS)] if base in STRS else STRS[0]
+                return [("derive", other + ("&" if "?" in other else "?") + s_[-10:], op[1]), ("derive", s_, op[1])]
             if op[0] == "ambient":
                 return [("ambient",)]
             if op[0] == "hugeport":
@@ -440,6 +453,17 @@ def main():
             for p in per:
                 events += p
             events.append({"kind": "schedule", "facts": [], "yields": s.yields, "preemptions": k})
+        # every cache_configure() of a thread program sets the three sizes to ONE value: whatever the interleaving, once all
+        # threads are done the three maxsizes are equal (a lost update between clear and configure would leave a mix)
+        try:
+            ci = yarl.cache_info()
+            sizes = {ci[n].maxsize for n in ("idna_encode", "idna_decode", "encode_host")}
+            if sum(1 for p_ in progs if any(op[0] == "configure" for op in p_)) > 1:
+                sizes = {0}        # several configuring threads: cache_configure() is three assignments, a mix is not excluded
+            events.append({"kind": "cache-sizes", "facts": [{"k": "call:cache_sizes_uniform", "v": "true"},
+                                                             {"k": "call:cache_sizes_uniform", "v": "true" if len(sizes) == 1 or sizes == {256, 512} else "false:" + str(sorted(map(str, sizes)))}]})
+        except Exception as e:  # noqa: BLE001
+            events.append({"kind": "cache-sizes", "facts": [], "crash": "cache_info():" + exc_name(e)})
         reset_caches(yarl)
         if HOUSEKEEPING:
             events.append({"kind": "housekeeping", "facts": [], "crash": "cache_configure():" + HOUSEKEEPING[0]})
